@@ -83,7 +83,13 @@ def main(tier):
             lb = max(chainmod.LDN_1601, min(caldrv.TAIL_FIRST - 1, lb))
             sb = rng.choice(SODS)
             A, B = "%sT%s" % (ch.fmtF(la), hms(sa)), "%sT%s" % (ch.fmtF(lb), hms(sb))
-            p = core.run([ddiff, A, B, "-f", "%S"], timeout=20)
+            # a third of the pairs in mixed notation: one operand as seconds since the epoch, the other civil
+            mixed = i % 3
+            if mixed == 1:
+                A = "@%d" % ((la - 141427) * 86400 + sa)
+            elif mixed == 2:
+                B = "@%d" % ((lb - 141427) * 86400 + sb)
+            p = core.run([ddiff, "-f", "%S", "--", A, B], timeout=20)
             nrun += 1
             try:
                 rv = int(p.stdout.strip())
